@@ -218,6 +218,10 @@ func (n *namer) traceOps(trace []string) [][]interface{} {
 
 var fixedTime = time.Unix(1700000000, 0).UTC()
 
+// commitClock gives the time of the commits made by opCommit / opMergeCommit; the sync runner
+// replaces it to produce histories whose timestamps disagree with their topology (clock skew).
+var commitClock = func() time.Time { return fixedTime }
+
 type c13Op func(db objects.Store, rs ref.Store) error
 
 func opCommit(csv []byte, pk []string, workers int, branch string) c13Op {
@@ -231,7 +235,7 @@ func opCommit(csv []byte, pk []string, workers int, branch string) c13Op {
 		if err != nil {
 			return err
 		}
-		com := &objects.Commit{Table: sum, Message: "m", Time: fixedTime, AuthorEmail: "e", AuthorName: "a"}
+		com := &objects.Commit{Table: sum, Message: "m", Time: commitClock(), AuthorEmail: "e", AuthorName: "a"}
 		if parent != nil {
 			com.Parents = [][]byte{parent}
 		}
@@ -277,7 +281,7 @@ func opMergeCommit(rows [][]string, columns []string, branch string, parents fun
 		if err = ingest.ProfileTable(db, sum, tbl); err != nil {
 			return err
 		}
-		com := &objects.Commit{Table: sum, Message: "merge", Time: fixedTime, AuthorEmail: "e", AuthorName: "a", Parents: parents(rs)}
+		com := &objects.Commit{Table: sum, Message: "merge", Time: commitClock(), AuthorEmail: "e", AuthorName: "a", Parents: parents(rs)}
 		buf := newBuf()
 		com.WriteTo(buf)
 		csum, err := objects.SaveCommit(db, buf.Bytes())
